@@ -31,7 +31,7 @@ def explore_threshold(ctx, chk, metric, sc, ec, method, cls=SCORES, stub=None):
     captured = []
     if stub:
         def handler(ev, fi, bound):
-            captured.append(dict(bound))
+            captured.append((dict(bound), len(ev.pc)))
             return App("STUB", (Const(len(captured) - 1),))
         ctx.ev.stubs[stub] = handler
     try:
@@ -41,10 +41,16 @@ def explore_threshold(ctx, chk, metric, sc, ec, method, cls=SCORES, stub=None):
         if stub:
             ctx.ev.stubs.pop(stub, None)
     # captured entries are appended per path in exploration order; attach to outcomes by STUB index
+    from ..terms import walk, V
     for o in outs:
         o.captured = None
-        if isinstance(o.value, App) and o.value.fn == "STUB":
-            o.captured = captured[o.value.args[0].value]
+        o.captured_pclen = None
+        hits = []
+        if isinstance(o.value, V):
+            # the helper's result may be post-processed by the front-end (`.item()` for scalar targets, a final asarray): find the stub inside
+            walk(o.value, lambda x: hits.append(x) if isinstance(x, App) and x.fn == "STUB" else None)
+        if hits:
+            o.captured, o.captured_pclen = captured[hits[0].args[0].value]
     _c[key] = outs
     return outs
 
